@@ -273,7 +273,7 @@ func (f *Fn) OnlyVia(r *Rule, s *Sites, edges map[[2]int]bool, label, what strin
 	}
 	ok := true
 	for _, x := range s.Sync().List {
-		if p := f.G.Path([]int{f.G.Entry}, x.V, nil, edges); p != nil {
+		if p := f.FPath([]int{f.G.Entry}, x.V, nil, edges); p != nil {
 			r.Fail(key, f.P.Pos(x.Node.Pos()), "%s reachable without %s; path (lines): %s", s.Desc, what, f.DescribePath(p))
 			ok = false
 		}
@@ -333,7 +333,7 @@ func (f *Fn) Precedes(r *Rule, a, b *Sites, opt OrderOpt) bool {
 				continue
 			}
 		}
-		if p := f.G.Path(start, s.V, cutV, cutE); p != nil {
+		if p := f.FPath(start, s.V, cutV, cutE); p != nil {
 			what := "without passing"
 			if opt.Success {
 				what = "without passing the success edge of"
@@ -406,7 +406,7 @@ func (f *Fn) followedBy(r *Rule, a, y *Sites, exits *Sites, label string, succes
 			if !d.Deferred {
 				continue
 			}
-			if f.G.Path([]int{f.G.Entry}, s.V, map[int]bool{d.V: true}, nil) == nil {
+			if f.FPath([]int{f.G.Entry}, s.V, map[int]bool{d.V: true}, nil) == nil {
 				dominated = true
 				break
 			}
@@ -439,7 +439,7 @@ func (f *Fn) followedBy(r *Rule, a, y *Sites, exits *Sites, label string, succes
 			if cutV[t] {
 				continue
 			}
-			if p := f.G.Path(start, t, cutV, nil); p != nil {
+			if p := f.FPath(start, t, cutV, nil); p != nil {
 				r.Fail(key, f.P.Pos(s.Node.Pos()), "after %s an exit is reachable without %s; path (lines): %s", a.Desc, y.Desc, f.DescribePath(append([]int{s.V}, p...)))
 				ok = false
 				break
@@ -496,7 +496,7 @@ func (f *Fn) Guarded(r *Rule, s *Sites, label string, atoms ...AtomPred) bool {
 	}
 	ok := true
 	for _, x := range s.List {
-		if p := f.G.Path([]int{f.G.Entry}, x.V, nil, cutE); p != nil {
+		if p := f.FPath([]int{f.G.Entry}, x.V, nil, cutE); p != nil {
 			var names []string
 			for _, a := range atoms {
 				names = append(names, a.Desc)
@@ -556,7 +556,7 @@ func (f *Fn) BranchReturns(r *Rule, atom AtomPred, ret Matcher, label string) bo
 				if !val {
 					tgt = v.FalseSucc
 				}
-				if f.G.Path([]int{tgt}, f.G.Exit, cutV, nil) == nil && len(cutV) > 0 {
+				if f.FPath([]int{tgt}, f.G.Exit, cutV, nil) == nil && len(cutV) > 0 {
 					// additionally require that some matching return is reachable
 					reach := f.G.Reach([]int{tgt}, nil, nil)
 					for id := range cutV {
@@ -692,7 +692,7 @@ func (f *Fn) NeverAfter(r *Rule, first, then *Sites, label string) bool {
 			if a.V == b.V {
 				continue
 			}
-			if p := f.G.Path(f.G.Vs[a.V].Succ, b.V, nil, nil); p != nil {
+			if p := f.FPath(f.G.Vs[a.V].Succ, b.V, nil, nil); p != nil {
 				r.Fail(key, f.P.Pos(b.Node.Pos()), "%s can execute after %s; path (lines): %s", then.Desc, first.Desc, f.DescribePath(append([]int{a.V}, p...)))
 				ok = false
 			}
@@ -733,7 +733,7 @@ func (f *Fn) AfterEdgesMustPass(r *Rule, edges map[[2]int]bool, s *Sites, label 
 	ok := true
 	for e := range edges {
 		for _, tgt := range []int{f.G.Exit, e[0]} {
-			if p := f.G.Path([]int{e[1]}, tgt, cut, nil); p != nil {
+			if p := f.FPath([]int{e[1]}, tgt, cut, nil); p != nil {
 				r.Fail(key, f.P.Pos(f.G.Vs[e[0]].Node.Pos()), "after this branch the function continues without %s; path (lines): %s", s.Desc, f.DescribePath(p))
 				ok = false
 				break
@@ -767,7 +767,7 @@ func (f *Fn) FailureStops(r *Rule, a, b *Sites, label string) bool {
 			fail = cv.FalseSucc
 		}
 		for _, t := range b.List {
-			if p := f.G.Path([]int{fail}, t.V, nil, map[[2]int]bool{}); p != nil {
+			if p := f.FPath([]int{fail}, t.V, nil, map[[2]int]bool{}); p != nil {
 				r.Fail(key, f.P.Pos(t.Node.Pos()), "%s reachable after %s failed; path (lines): %s", b.Desc, a.Desc, f.DescribePath(append([]int{cv.ID}, p...)))
 				ok = false
 			}
